@@ -86,6 +86,8 @@ func (server *SugarDB) Flush(database int) {
 
 	if database == -1 {
 		for db, _ := range server.store {
+			// Release the memory accounted for the keys of the db.
+			server.releaseDatabaseMemory(db)
 			// Clear db store.
 			clear(server.store[db])
 			// Clear db volatile key tracker.
@@ -107,6 +109,8 @@ func (server *SugarDB) Flush(database int) {
 		return
 	}
 
+	// Release the memory accounted for the keys of the db.
+	server.releaseDatabaseMemory(database)
 	// Clear db store.
 	clear(server.store[database])
 	// Clear db volatile key tracker.
@@ -235,14 +239,9 @@ func (server *SugarDB) setValues(ctx context.Context, entries map[string]interfa
 			Value:    value,
 			ExpireAt: expireAt,
 		}
-		data := server.store[database][key]
-		mem, err := data.GetMem()
-		if err != nil {
+		if err := server.accountKeyMemory(database, key); err != nil {
 			return err
 		}
-		server.memUsed += mem
-		server.memUsed += int64(unsafe.Sizeof(key))
-		server.memUsed += int64(len(key))
 
 		if !server.isInCluster() {
 			server.snapshotEngine.IncrementChangeCount()
@@ -294,18 +293,13 @@ func (server *SugarDB) setExpiry(ctx context.Context, key string, expireAt time.
 func (server *SugarDB) deleteKey(ctx context.Context, key string) error {
 	database := ctx.Value("Database").(int)
 
-	// Deduct memory usage in tracker.
-	data := server.store[database][key]
-	mem, err := data.GetMem()
-	if err != nil {
-		return err
-	}
-	server.memUsed -= mem
-	server.memUsed -= int64(unsafe.Sizeof(key))
-	server.memUsed -= int64(len(key))
-
 	// Delete the key from keyLocks and store.
 	delete(server.store[database], key)
+
+	// Deduct memory usage in tracker.
+	if err := server.accountKeyMemory(database, key); err != nil {
+		return err
+	}
 
 	// Remove key from slice of keys associated with expiry.
 	server.keysWithExpiry.rwMutex.Lock()
@@ -325,6 +319,52 @@ func (server *SugarDB) deleteKey(ctx context.Context, key string) error {
 	log.Printf("deleted key %s\n", key)
 
 	return nil
+}
+
+// accountKeyMemory brings the memory accounted for a key in line with what is currently stored under it:
+// memUsed changes by the difference between the key's current size (0 if it is not stored any more) and
+// the size that was accounted for it before. The caller must hold the store lock.
+func (server *SugarDB) accountKeyMemory(database int, key string) error {
+	var size int64
+	if data, ok := server.store[database][key]; ok {
+		mem, err := data.GetMem()
+		if err != nil {
+			return err
+		}
+		size = mem + int64(unsafe.Sizeof(key)) + int64(len(key))
+	}
+	if server.keyMem[database] == nil {
+		server.keyMem[database] = make(map[string]int64)
+	}
+	server.memUsed += size - server.keyMem[database][key]
+	if size == 0 {
+		delete(server.keyMem[database], key)
+	} else {
+		server.keyMem[database][key] = size
+	}
+	return nil
+}
+
+// releaseDatabaseMemory deducts everything that is accounted for the keys of a database.
+// The caller must hold the store lock.
+func (server *SugarDB) releaseDatabaseMemory(database int) {
+	for _, size := range server.keyMem[database] {
+		server.memUsed -= size
+	}
+	clear(server.keyMem[database])
+}
+
+// reconcileKeysMemory re-accounts the given keys after a command that may have modified their values
+// in place (sets and sorted sets are updated through their pointers without going through setValues).
+func (server *SugarDB) reconcileKeysMemory(ctx context.Context, keys []string) {
+	server.storeLock.Lock()
+	defer server.storeLock.Unlock()
+	database := ctx.Value("Database").(int)
+	for _, key := range keys {
+		if err := server.accountKeyMemory(database, key); err != nil {
+			log.Printf("reconcileKeysMemory: %+v\n", err)
+		}
+	}
 }
 
 func (server *SugarDB) createDatabase(database int) {
